@@ -82,8 +82,13 @@ func (p *Path) resolve0(v ssa.Value) ssa.Value {
 				if x.Op == token.MUL {
 					if cell := Cell(x.X); cell != nil {
 						if sts := CellStores(cell); len(sts) == 1 {
-							v = sts[0].Val
-							continue
+							// ... by the function that declares it (a store made by a closure may not have
+							// happened yet: the variable then still holds its zero value), and before the load
+							st := sts[0]
+							if st.Parent() == cell.Parent() && (x.Parent() != cell.Parent() || Dominates(st, x)) {
+								v = st.Val
+								continue
+							}
 						}
 					}
 				}
